@@ -9,7 +9,7 @@ ID = "C10"
 LEVEL = "model_checking"
 RULE = ("BFS over solve histories: alphabet of operations {solve with the shared default Params object, solve with Exact control + objective "
         "filter, re-solve on the most recent solver object, solve with GradJac scaling, solve with derivative check, solve of a problem with an "
-        "unsymmetric Hessian (module-level warn-once flags), solve ending in the deliberate step-size error, DEBUG-logged solve, [thorough: "
+        "unsymmetric Hessian (module-level warn-once flags), solve ending in the deliberate step-size error, solve aborted by an exception from a user callback, [thorough: derivative check, DEBUG-logged solve, "
         "flow-integration solve, solve with DistanceRatio+DualNorm on a second problem]}; ALL histories up to depth 3 (quick) / 4 (thorough), each "
         "history executed in a fresh process; differential oracle: the digest (every trial step, status, x, y, d, counters) of every solve in a "
         "history equals the digest of the same operation executed alone in a fresh process. states = histories (no merging: interpreter state "
@@ -18,8 +18,8 @@ ASSUMPTIONS = ["a process forked from the parent that has imported pygradflow bu
                "digest = sha256 over the bytes of every trial (inputs, rho, dt, lambda, accepted, outputs) and of the result"]
 FRESH = True
 CASE_ALARM_S = 300
-OPS_QUICK = ["default", "exact_filter", "resolve", "scaled", "derivcheck", "unsym"]
-OPS_THOROUGH = OPS_QUICK + ["lamerr", "debug", "integration", "second"]
+OPS_QUICK = ["default", "exact_filter", "resolve", "scaled", "lamerr", "cb_abort", "unsym"]
+OPS_THOROUGH = OPS_QUICK + ["derivcheck", "debug", "integration", "second"]
 
 
 def ops(tier):
@@ -65,6 +65,11 @@ def op_setup(op):
         spec = specs[1]
         params = R.make_params({"iteration_limit": 60, "params": {"lamb_max": 4.0, "lamb_init": 2.0}})
         prob = UserProblem(spec)
+    elif op == "cb_abort":
+        # a solve that is left by an exception raised from a user callback at the 4th step
+        spec = specs[0]
+        params = R.make_params({"iteration_limit": 60, "penalty": "ObjectiveFilter"})
+        prob = UserProblem(spec)
     elif op == "debug":
         spec = specs[3]
         params = R.make_params({"iteration_limit": 30, "display_interval": 0.0, "penalty": "DualEquilibration"})
@@ -97,11 +102,25 @@ def run_history(hist):
                 # a re-solve needs a first solve; its digest is not reported
             solver, spec, prob, params, lvl, base = last
             rec = R.run_solve(prob, params, spec["x0"], spec["y0"], solver=solver, log_level=lvl)
-            out.append(("resolve:" + base, rec.digest))
+            out.append(("resolve:" + ("cb_abort_plain" if base == "cb_abort" else base), rec.digest))
             continue
         spec, prob, params, lvl = op_setup(op)
         solver = R.RecSolver(prob, params)
+        pre = None
+        if op == "cb_abort":
+            from pygradflow.callbacks import CallbackType
+
+            cnt = [0]
+
+            def bomb(a, b, acc):
+                cnt[0] += 1
+                if cnt[0] == 4:
+                    raise RuntimeError("user callback aborts the solve")
+
+            handle = solver.callbacks.register(CallbackType.ComputedStep, bomb)
         rec = R.run_solve(prob, params, spec["x0"], spec["y0"], solver=solver, log_level=lvl)
+        if op == "cb_abort":
+            solver.callbacks.unregister(handle)  # a later re-solve on this solver runs without the aborting callback
         last = (solver, spec, prob, params, lvl, op)
         out.append((op, rec.digest))
     return out
@@ -128,6 +147,16 @@ def integration_digest():
         return ("integration", "exc:" + type(e).__name__)
 
 
+def _alone_plain():
+    """Reference for a re-solve after the aborted solve: the same solve without the aborting callback, alone."""
+    import warnings
+    from pgfmc.drive import run as R
+
+    warnings.filterwarnings("ignore")
+    spec, prob, params, lvl = op_setup("cb_abort")
+    return R.run_solve(prob, params, spec["x0"], spec["y0"], solver=R.RecSolver(prob, params)).digest
+
+
 def _alone(op):
     import warnings
     warnings.filterwarnings("ignore")
@@ -142,6 +171,8 @@ def references(tier):
             continue
         with ctx.Pool(1, maxtasksperchild=1) as pool:
             refs[op] = pool.apply(_alone, (op,))
+    with ctx.Pool(1, maxtasksperchild=1) as pool:
+        refs["cb_abort_plain"] = pool.apply(_alone_plain)
     return refs
 
 
